@@ -395,47 +395,52 @@ def cli(tier, r, case, only=None):
                         r.bad('cli-disagrees-with-api', 'bin/sum_product.py', 'cli', 'options %r: CLI %r, API %r; rules=%r' % (opts, lines, api, ir['rules']), case, key)
                         continue
                 r.ok(key, outcome='cli', nontrivial=True)
-            # weights of two factors given on the command line (-w), gradients (-g) and expected counts (-e)
-            terms = [t for t in sorted(ir['term']) if any(t == l for rule in ir['rules'] for l, _ in rule[3])]
-            if len(terms) >= 2:
-                t1, t2 = terms[0], terms[1]
-                key = ('cli-w', repr(ir['rules']), repr(ir['w']), t1, t2)
-                try:
-                    j = fggs.fgg_to_json(g)
-                    wj = {t: j['interpretation']['factors'][t]['weights'] for t in (t1, t2)}
-                    for t in (t1, t2):
-                        del j['interpretation']['factors'][t]
-                    path2 = os.path.join(tmp, 'g%d_w.json' % gi)
-                    with open(path2, 'w') as f:
-                        json.dump(j, f)
-                    cmd = ['/venv/bin/python', '-OO', os.path.join(REPO, 'bin', 'sum_product.py'), path2, '-d', '-m', 'fixed-point', '-l', '1e-12',
-                           '-w', t1, json.dumps(wj[t1]), '-w', t2, json.dumps(wj[t2]), '-g', '-e']
-                    p = subprocess.run(cmd, env=env, capture_output=True, text=True, cwd=tmp, timeout=300)
-                    lines = parse_cli(p.stdout)
-                    from mc.c11_eval import evaluate
-                    api = evaluate(ir, ('real', 'fixed-point', False, 'float64', True))
-                    okk = p.returncode == 0 and api[0] == 'ok' and lines and close(lines[0][1], api[1], 1e-8)
-                    detail = ''
-                    if okk:
-                        ztot = sum(flat_list(api[1]))
-                        got = dict(lines[1:])
-                        for t in (t1, t2):
-                            gr = api[2].get(t)
-                            if gr is None:
-                                continue
-                            want_e = mul_lists(gr, wj[t], 1.0 / ztot) if ztot else None
-                            if 'grad[%s]' % t not in got or not close(got['grad[%s]' % t], gr, 1e-6):
-                                okk, detail = False, 'grad[%s]: CLI %r, API %r' % (t, got.get('grad[%s]' % t), gr)
-                            elif want_e is not None and ('E[#%s]' % t not in got or not close(got['E[#%s]' % t], want_e, 1e-6)):
-                                okk, detail = False, 'E[#%s]: CLI %r, w dZ/dw / Z = %r' % (t, got.get('E[#%s]' % t), want_e)
-                    if not okk:
-                        r.bad('cli-disagrees-with-api', 'bin/sum_product.py', 'cli', '-w %s -w %s -g -e: rc=%d %s; stderr %s; rules=%r' % (t1, t2, p.returncode, detail, p.stderr[-200:], ir['rules']), case, key)
-                    else:
-                        r.ok(key, outcome='cli-w', nontrivial=True)
-                except Exception as e:
-                    r.exc(e, 'cli', case, key)
+            cli_w_e(ir, g, gi, tmp, env, r, case)
     finally:
         shutil.rmtree(tmp, ignore_errors=True)
+
+
+def cli_w_e(ir, g, gi, tmp, env, r, case, site='bin/sum_product.py'):
+    import fggs
+    # weights of two factors given on the command line (-w), gradients (-g) and expected counts (-e)
+    terms = [t for t in sorted(ir['term']) if any(t == l for rule in ir['rules'] for l, _ in rule[3])]
+    if len(terms) >= 2:
+        t1, t2 = terms[0], terms[1]
+        key = ('cli-w', repr(ir['rules']), repr(ir['w']), t1, t2)
+        try:
+            j = fggs.fgg_to_json(g)
+            wj = {t: j['interpretation']['factors'][t]['weights'] for t in (t1, t2)}
+            for t in (t1, t2):
+                del j['interpretation']['factors'][t]
+            path2 = os.path.join(tmp, 'g%d_w.json' % gi)
+            with open(path2, 'w') as f:
+                json.dump(j, f)
+            cmd = ['/venv/bin/python', '-OO', os.path.join(REPO, 'bin', 'sum_product.py'), path2, '-d', '-m', 'fixed-point', '-l', '1e-12',
+                   '-w', t1, json.dumps(wj[t1]), '-w', t2, json.dumps(wj[t2]), '-g', '-e']
+            p = subprocess.run(cmd, env=env, capture_output=True, text=True, cwd=tmp, timeout=300)
+            lines = parse_cli(p.stdout)
+            from mc.c11_eval import evaluate
+            api = evaluate(ir, ('real', 'fixed-point', False, 'float64', True))
+            okk = p.returncode == 0 and api[0] == 'ok' and lines and close(lines[0][1], api[1], 1e-8)
+            detail = ''
+            if okk:
+                ztot = sum(flat_list(api[1]))
+                got = dict(lines[1:])
+                for t in (t1, t2):
+                    gr = api[2].get(t)
+                    if gr is None:
+                        continue
+                    want_e = mul_lists(gr, wj[t], 1.0 / ztot) if ztot else None
+                    if 'grad[%s]' % t not in got or not close(got['grad[%s]' % t], gr, 1e-6):
+                        okk, detail = False, 'grad[%s]: CLI %r, API %r' % (t, got.get('grad[%s]' % t), gr)
+                    elif want_e is not None and ('E[#%s]' % t not in got or not close(got['E[#%s]' % t], want_e, 1e-6)):
+                        okk, detail = False, 'E[#%s]: CLI %r, w dZ/dw / Z = %r' % (t, got.get('E[#%s]' % t), want_e)
+            if not okk:
+                r.bad('cli-disagrees-with-api', 'bin/sum_product.py', 'cli', '-w %s -w %s -g -e: rc=%d %s; stderr %s; rules=%r' % (t1, t2, p.returncode, detail, p.stderr[-200:], ir['rules']), case, key)
+            else:
+                r.ok(key, outcome='cli-w', nontrivial=True)
+        except Exception as e:
+            r.exc(e, 'cli', case, key)
 
 
 def flat_list(x):
